@@ -4,13 +4,14 @@ import numpy as np
 
 
 class Grid:
-    def __init__(self, modules=None, imax=20, jmax=20, dx=100, depth=50, land=(), **kw):
+    def __init__(self, modules=None, imax=20, jmax=20, dx=100, depth=50, land=(), log=None, **kw):
         self.xmin, self.xmax, self.ymin, self.ymax = 0.0, float(imax), 0.0, float(jmax)
         self.imax, self.jmax = imax, jmax
         self.dx = dx
         self.h = depth
         self.land = set(tuple(c) for c in land)
         self.closed = 0
+        self.log = log
 
     def metric(self, X, Y):
         A = np.zeros(len(X)) + self.dx
@@ -40,3 +41,5 @@ class Grid:
 
     def close(self):
         self.closed += 1
+        if self.log is not None:
+            self.log.append(("close", "grid"))
